@@ -706,6 +706,10 @@ func (e *Engine) stackPrivacyObligations() {
 	}
 	var bad []string
 	writers := map[string]bool{}
+	fromEval := map[*types.Func]bool{}
+	if ev := e.P.Funcs["(*Context).evaluate"]; ev != nil && ev.Obj != nil {
+		fromEval = e.reachable([]*types.Func{ev.Obj})
+	}
 	for _, fi := range fis {
 		check := func(lhs ast.Expr) {
 			// x.TypeId / x.Value where x is a VMValue or *VMValue; *p = ... with p *VMValue; s[i] = ... with s []VMValue
@@ -727,7 +731,13 @@ func (e *Engine) stackPrivacyObligations() {
 							}
 						}
 					}
-					if !(viaStack && fi.Key == "(*Context).evaluate") && fi.Key != "(*VMValue).UnmarshalJSON" {
+					// (b): a method of *VMValue that is not reachable from evaluate and writes its own receiver (the JSON decoder
+					// and the helpers it is split into)
+					decoderSide := false
+					if id, ok := l.X.(*ast.Ident); ok && strings.HasPrefix(fi.Key, "(*VMValue).") && !fromEval[fi.Obj] && fi.Decl.Recv != nil && len(fi.Decl.Recv.List) == 1 && len(fi.Decl.Recv.List[0].Names) == 1 && fi.Decl.Recv.List[0].Names[0].Name == id.Name {
+						decoderSide = true
+					}
+					if !(viaStack && fi.Key == "(*Context).evaluate") && !decoderSide {
 						bad = append(bad, fi.Key+"@"+e.posStr(l.Pos()))
 					}
 				}
@@ -1328,6 +1338,11 @@ func (e *Engine) representationPrivacy() {
 		}
 		nm++
 		c := e.P.CF.Contracts[key]
+		if c == nil && fi.Obj != nil && !fi.Obj.Exported() && e.autoInlinable(fi) {
+			// an unexported short helper without a contract is executed in place wherever a method calls it: it is covered
+			// by its callers' proofs (clients cannot call it)
+			continue
+		}
 		if c == nil || (len(c.Holds) == 0 && !c.Inline) {
 			lacking = append(lacking, key)
 		}
